@@ -238,7 +238,7 @@ class HitResult:
         self.__check_extra__()
 
         at_range = PreferredUnits.distance(at_range)
-        target_height = PreferredUnits.distance(target_height)
+        target_height = PreferredUnits.target_height(target_height)
         target_height_half = target_height.raw_value / 2.0
 
         _look_angle: Angular
